@@ -40,6 +40,9 @@ func (cliStream) Generate(rng *rand.Rand, tier string, emit func(Case)) {
 	cmds := []string{"devices", "vendors", "classes", "specs", "validate"}
 	for i := 0; i < n; i++ {
 		l := genLayout(rng)
+		if i%3 != 0 {
+			l = genCleanLayout(rng) // the tool stops at the first cache error: most cases must be error-free
+		}
 		// keep directory kinds the tool can be pointed at; drop kinds that need unusual paths
 		lj, _ := json.Marshal(l)
 		var lm map[string]any
@@ -47,7 +50,8 @@ func (cliStream) Generate(rng *rand.Rand, tier string, emit func(Case)) {
 		for _, c := range cmds {
 			emit(Case{"op": "list", "cmd": c, "layout": lm})
 		}
-		emit(Case{"op": "inject", "layout": lm, "patterns": hxList([][]string{{"*"}, {"v1.com/*"}, {"*=d0", "v2.com/c1=d1"}, {"nomatch*"}}[rng.Intn(4)]),
+		emit(Case{"op": "inject", "layout": lm, "patterns": hxList([][]string{{"*/*"}, {"v1.com/*"}, {"*/*=d0", "v2.com/c1=d1"}, {"nomatch*"}, {"*"}, {"*/*", "*/*=d0"}, {"v1.com/c1=d0", "v1.com/*", "*/c1=d0"},
+			{"*/*=d1", "*/*=d0", "*/*=d1"}, {"v?.com/c[12]=d*", "*/c1=*"}}[rng.Intn(9)]),
 			"ocikind": rng.Intn(3), "format": []string{"json", "yaml"}[rng.Intn(2)]})
 	}
 	g := docGen{rng}
